@@ -176,6 +176,8 @@ func TestC04Fieldsets(t *testing.T) {
 }
 
 func TestC04Regress(t *testing.T) {
+	t.Run("same-named-structs", c04SameNamedStructs)
+
 	specs := []gen.TypeSpec{
 		{Name: "a", Attrs: []jsonapi.Attr{{Name: "s", Type: jsonapi.AttrTypeString}, {Name: "n", Type: jsonapi.AttrTypeInt}},
 			Rels: []jsonapi.Rel{{FromType: "a", FromName: "bs", ToType: "b"}, {FromType: "a", FromName: "b", ToType: "b", ToOne: true}}},
@@ -222,4 +224,111 @@ func TestC04Regress(t *testing.T) {
 	if msg := fieldsetOracle(c, gen.ResModel{TS: &ss.Types[1], Vals: bv}, ds.Included[0]); msg != "" {
 		t.Fatalf("C04 violated: %s\n%s", msg, out)
 	}
+}
+
+// c04SameNamedStructs (run by TestC04Regress): two different struct types that happen to
+// have the same Go name (declared in different scopes, or in two packages of
+// the same name) are different types of the schema; each resource is marshaled
+// under its own type's selection. reflect.StructOf cannot give two types one
+// name, so this shape only exists as a declared example.
+func c04SameNamedStructs(t *testing.T) {
+	mkArticle := func() jsonapi.Resource {
+		type item struct {
+			ID     string `json:"id" api:"articles"`
+			Title  string `json:"title" api:"attr"`
+			Author string `json:"author" api:"rel,people"`
+		}
+
+		return jsonapi.Wrap(&item{ID: "a1", Title: "T", Author: "p1"})
+	}
+	mkComment := func() jsonapi.Resource {
+		type item struct {
+			ID   string   `json:"id" api:"comments"`
+			Body string   `json:"body" api:"attr"`
+			Post string   `json:"post" api:"rel,articles"`
+			Tags []string `json:"tags" api:"rel,tags"`
+		}
+
+		return jsonapi.Wrap(&item{ID: "c1", Body: "B", Post: "a1", Tags: []string{"t2", "t1"}})
+	}
+
+	for round := 0; round < 2; round++ {
+		doc := &jsonapi.Document{Data: mkArticle(), Included: []jsonapi.Resource{mkComment()}, RelData: map[string][]string{"articles": {"author"}, "comments": {"post", "tags"}}}
+		u := &jsonapi.URL{Fragments: []string{"articles", "a1"}, ResType: "articles", ResID: "a1", Params: &jsonapi.Params{Fields: map[string][]string{"articles": {"title", "author"}, "comments": {"body", "post", "tags"}}}}
+
+		out, err := jsonapi.MarshalDocument(doc, u)
+		if err != nil {
+			t.Fatalf("C04 violated: %v", err)
+		}
+
+		ds, derr := oracle.DecodeDocument(out)
+		if derr != nil {
+			t.Fatalf("C04 violated: %v\n%s", derr, out)
+		}
+
+		want := map[string][2][]string{"articles": {{"title"}, {"author"}}, "comments": {{"body"}, {"post", "tags"}}}
+		targets := map[string]string{"author": "people", "post": "articles", "tags": "tags"}
+
+		resources := append(append([]oracle.ResObj{}, ds.Primary...), ds.Included...)
+
+		for _, ro := range resources {
+			w, ok := want[ro.Type]
+			if !ok {
+				t.Fatalf("C04 violated: unexpected resource object of type %q\n%s", ro.Type, out)
+			}
+
+			attrs, _ := ro.Obj["attributes"].(map[string]any)
+			rels, _ := ro.Obj["relationships"].(map[string]any)
+
+			if got := gen.SortedKeys(attrs); !reflect.DeepEqual(got, w[0]) {
+				t.Fatalf("C04 violated: %s (round %d): attributes %q, want %q\n%s", ro.Where, round, got, w[0], out)
+			}
+
+			if got := gen.SortedKeys(rels); !reflect.DeepEqual(got, w[1]) {
+				t.Fatalf("C04 violated: %s (round %d): relationships %q, want %q\n%s", ro.Where, round, got, w[1], out)
+			}
+
+			for name, rv := range rels {
+				rel, _ := rv.(map[string]any)
+
+				d, has := rel["data"]
+				if !has {
+					t.Fatalf("C04 violated: %s: relationship %q has no data although it was asked for\n%s", ro.Where, name, out)
+				}
+
+				for _, id := range identifiersOf(d) {
+					if id[0] != targets[name] {
+						t.Fatalf("C04 violated: %s: relationship %q lists an identifier of type %q, want %q\n%s", ro.Where, name, id[0], targets[name], out)
+					}
+				}
+			}
+		}
+
+		if len(resources) != 2 {
+			t.Fatalf("C04 violated: %d resource objects, want 2\n%s", len(resources), out)
+		}
+	}
+}
+
+// identifiersOf lists the (type, id) pairs of a linkage value.
+func identifiersOf(d any) [][2]string {
+	out := [][2]string{}
+
+	one := func(v any) {
+		if o, ok := v.(map[string]any); ok {
+			typ, _ := o["type"].(string)
+			id, _ := o["id"].(string)
+			out = append(out, [2]string{typ, id})
+		}
+	}
+
+	if l, ok := d.([]any); ok {
+		for _, e := range l {
+			one(e)
+		}
+	} else {
+		one(d)
+	}
+
+	return out
 }
